@@ -2,7 +2,7 @@
 import numpy as np
 
 from pwv import ref, spec as S, opspec, wellformed
-from pwv.oracles import V, step_sig, state_class, pre_ok, judge_apply
+from pwv.oracles import V, step_sig, state_class, pre_ok, judge_apply, contraction_slack
 from pwv.run import rho_pre, rho_post, rec_dims
 from pwv.world import Malformed, blocks, block_rho, denote, impl_dims, live, fock_dim
 
@@ -271,6 +271,8 @@ def judge_c11(rec):
     if e > 1e-8:
         out.append(V("C11", "violated", "photon-number-not-conserved", f"{sig.get('op')}: total-number distribution changed by {e:.3g}: {np.round(n0, 6).tolist()} -> {np.round(n1, 6).tolist()}", cell=cell, **sig))
     ok, err, meas = S.compare_states(r1, exp["rho"], False)
+    if not ok and err <= S.EXACT_TOL + contraction_slack(rec, exp["rho"], exp["dims"], exp["names"]):
+        ok = True
     if not ok:
         out.append(V("C11", "violated", "not-su2", f"{sig.get('op')}: differs from the SU(2) mode transformation, {meas}={err:.3g}", cell=cell, **sig))
     if not out:
